@@ -192,8 +192,8 @@ func runCheck(repo, out, prop, tier string, timeout, seed int, verbose, keep boo
 			again = append(again, o)
 		}
 	}
-	if len(again) > 0 && len(again) <= 64 {
-		solveAll(again, dir, timeout*3, tier == "thorough", solverSeed, 4)
+	if len(again) > 0 && len(again) <= 8 {
+		solveAll(again, dir, timeout*3, tier == "thorough", solverSeed, 8)
 	} else {
 		for _, o := range again {
 			o.Status = o.FirstStatus
